@@ -60,7 +60,7 @@ import nfc.tag
 import nfc.tag.tt3
 
 from vlib import p2p, ref_llcp, simdev, vsched
-from vlib.engine import Leg, Violation, unexpected
+from vlib.engine import Leg, Violation, unexpected, twin_O
 from props import c11
 
 PROPERTY = "C07"
@@ -2264,4 +2264,15 @@ LEGS = [
              "connect(card=...).  Oracle as for t3lists.  non-trivial = a "
              "Read/Write command with at least two block list elements got a "
              "response frame."),
+]
+
+# the same searches under "python -O": a check of peer / device data that
+# rests on an assert statement validates nothing there
+_by = dict((lg.name, lg) for lg in LEGS)
+LEGS += [
+    twin_O(_by['dep-ini'], quick=1000, thorough=10000),
+    twin_O(_by['dep-tgt'], quick=1000, thorough=10000),
+    twin_O(_by['gb'], quick=700, thorough=7000),
+    twin_O(_by['pdu'], quick=700, thorough=7000),
+    twin_O(_by['t3emu'], quick=1000, thorough=10000),
 ]
